@@ -27,6 +27,11 @@
                                                       L <name> <size> <nkeys> <key>...      K <crashed>
      G ...                 ghost facts (gen): inv/res with item index, linearisation actions, giveback, preemptions
      Z
+   check prints   R <sid> ok <items> <complete> | R <sid> diff <k> <kind> <ndiffs> <complete>
+                  D <sid> <k> <kind> <tid|-> exp=.. got=..     kind: label (parked at another yield point / finished vs parked),
+                                                               blocked (blocked in Acquire on one side only), bit (ok differs),
+                                                               err (same bit, other error variable), table, crash
+                  G <sid> ...                                  ghost facts of the model run over the echoed items
    Only enumeration, parsing and printing happen here; every state change and every enabledness decision is made by
    extracted Coq code (lstep, lk_enabled, lk_forced, lk_gcpass, no_call_in_flight). *)
 type ostring = string
@@ -383,7 +388,8 @@ let compare_obs (sid : ostring) (k : int) (exp : obs) (got : obs) : (ostring * o
         | Some (SF (ok1, e1)), Some (SF (ok2, e2)) ->
             if ok1 <> ok2 then add "bit" (string_of_int t) (us (tok_of_stat (SF (ok1, e1)))) (us (tok_of_stat (SF (ok2, e2))))
             else if e1 <> e2 then add "err" (string_of_int t) e1 e2
-        | Some a, Some b -> if a <> b then add "label" (string_of_int t) (us (tok_of_stat a)) (us (tok_of_stat b))
+        | Some a, Some b ->
+            if a <> b then add (if a = SB || b = SB then "blocked" else "label") (string_of_int t) (us (tok_of_stat a)) (us (tok_of_stat b))
         | Some a, None -> add "label" (string_of_int t) (us (tok_of_stat a)) "absent"
         | None, Some b -> add "label" (string_of_int t) "absent" (us (tok_of_stat b))
         | None, None -> ()) tids;
